@@ -24,6 +24,7 @@ RULE = (
     "finalize. Non-trivial = N>=2 rows and (readers) chunk size < N, (writers) >=2 appends; distinct = "
     "(reader kind, table hash, chunk size, columns) / (writer kind, table hash, append split, buffer)."
     " Delimited text uses the default tab or an explicit sep (, ; |) via from_path / CSVFileReader / CSVFileWriter; an unrelated reader (writer) with another delimiter is created and used while the one under test is alive."
+    " Half of the delimited files write numbers the short way (%.17g: 2 instead of 2.0)."
 )
 ASSUMPTIONS = [
     "strings are plain tokens (no NA-like / numeric-looking text: type inference of delimited text is outside the statement)",
@@ -109,7 +110,9 @@ def _make_reader(kind, df, d, rng):
         # delimiter: the default tab, or another one handed to the reader explicitly (documented `sep` argument)
         sep = str(rng.choice(["\t", "\t", ",", ";", "|"]))
         p = Path(d) / ("t.csv" if sep == "\t" or rng.random() < 0.5 else "t.txt")
-        df.to_csv(p, sep=sep, index=False)
+        # half of the files write numbers the short way (2 instead of 2.0): a float column may then look integer-typed
+        # in its first rows
+        df.to_csv(p, sep=sep, index=False, **({"float_format": "%.17g"} if rng.random() < 0.5 else {}))
         if sep == "\t":
             return td.TabularDataReader.from_path(p), df
         return (td.TabularDataReader.from_path(p, sep=sep) if rng.random() < 0.5 else td.CSVFileReader(p, sep=sep)), df
